@@ -94,7 +94,16 @@ def r_eq(mod, rep, R='R13.2'):
             text_eq = bf.T(('cmp', '==', N('self'), ('call', A(N('Feature'), 'parse'), (N(o),), ())))
         same = bf.AND(*[bf.T(('cmp', '==', A(N('self'), f), A(N(o), f))) for f in fields])
         # a str is never an instance of the class: rows claiming both are not possible inputs
-        cons = lambda sigma: not (sigma.get(is_str[1], False) and sigma.get(is_cls[1], False)) if is_str[0] == 'atom' and is_cls[0] == 'atom' else True
+        cons0 = lambda sigma: not (sigma.get(is_str[1], False) and sigma.get(is_cls[1], False)) if is_str[0] == 'atom' and is_cls[0] == 'atom' else True
+        ident = logic.formula(('cmp', 'is', N(o), N('self')))[1]
+        field_atoms = [logic.formula(('cmp', '==', A(N('self'), f), A(N(o), f)))[1] for f in fields]
+
+        def cons(sigma, cons0=cons0, ident=ident, field_atoms=field_atoms, is_str=is_str, is_cls=is_cls):
+            # `other is self` (an identity shortcut): then other is of this class, is no text, and every field equals itself
+            if sigma.get(ident, False):
+                if sigma.get(is_str[1], False) or not sigma.get(is_cls[1], True) or any(not sigma.get(fa, True) for fa in field_atoms):
+                    return False
+            return cons0(sigma)
         ok, detail = bf.matches(fn, bf.ITE(is_str, text_eq, bf.AND(is_cls, same)), cons, inline_also=('items', 'values', 'keys'))
         if not ok and base != 'Category':
             # the same comparison with a text operand parsed in place (`other = parse(other) if isinstance(other, str)
